@@ -207,6 +207,10 @@ impl ExecutorInner {
         if let Err(payload) = result {
             let model_id = CURRENT_MODEL_ID.replace(model_id_stash);
 
+            // Hand the counter of in-flight messages back to the outer
+            // executor, if any.
+            channel::THREAD_MSG_COUNT.set(msg_count_stash);
+
             return Err(ExecutorError::Panic(model_id, payload));
         }
         CURRENT_MODEL_ID.set(model_id_stash);
